@@ -4,9 +4,31 @@ package main
 // before instrumentation (never to /repo itself): the sensitivity self-test
 // must see the matching check fail.
 type mutation struct {
+	property string
 	file     string
 	old, new string
-	property string
 }
 
-var mutations = map[string]mutation{}
+var mutations = map[string]mutation{
+	// C07
+	"c07-overread":     {"C07", "ttlv/io.go", "s.inner.Read(buf[read:need])", "s.inner.Read(buf[read:cap(buf)])"},
+	"c07-max-after":    {"C07", "ttlv/io.go", "if s.max > 0 && need > s.max {", "if s.max > 0 && read > s.max {"},
+	// C09
+	"c09-stop-never":   {"C09", "kmipserver/router.go", "stopped = true", "stopped = false"},
+	"c09-no-id-echo":   {"C09", "kmipserver/router.go", "UniqueBatchItemID: req.BatchItem[i].UniqueBatchItemID,\n\t\t\t\tResultStatus:", "ResultStatus:"},
+	"c09-no-count":     {"C09", "kmipserver/router.go", "if int(req.Header.BatchCount) != len(req.BatchItem) {", "if false {"},
+	"c09-undo-ok":      {"C09", "kmipserver/router.go", "if co == kmip.BatchErrorContinuationOptionUndo {", "if false {"},
+	// C10
+	"c10-no-lock":      {"C10", "kmipclient/client.go", "\tc.lock.Lock()\n\tdefer c.lock.Unlock()\n", ""},
+	"c10-no-terminate": {"C10", "kmipclient/conn.go", "\t\t// Close the client to cancel the operation on server\n\t\t_ = c.terminate(io.ErrClosedPipe)\n\t\treturn nil, ctx.Err()", "\t\treturn nil, ctx.Err()"},
+	// C11
+	"c11-retry-5":      {"C11", "kmipclient/client.go", "retry := 3", "retry := 5"},
+	"c11-no-reconnect": {"C11", "kmipclient/client.go", "if c.conn == nil || c.conn.broken() {", "if c.conn == nil {"},
+	"c11-close-noflag": {"C11", "kmipclient/client.go", "\tc.closed.Store(true)\n\tc.connLock.Lock()", "\tc.connLock.Lock()"},
+	// C12
+	"c12-no-count":     {"C12", "kmipclient/client.go", "if int(resp.Header.BatchCount) != len(resp.BatchItem) || len(resp.BatchItem) != len(payloads) {", "if len(resp.BatchItem) == 0 {"},
+	"c12-no-err":       {"C12", "kmipclient/client.go", "\tbi := resp[0]\n\tif err := bi.Err(); err != nil {\n\t\treturn nil, err\n\t}", "\tbi := resp[0]"},
+	// C13
+	"c13-fallback":     {"C13", "kmipclient/client.go", "if !slices.Contains(c.supportedVersions, kmip.V1_0) {", "if false {"},
+	"c13-first-listed": {"C13", "kmipclient/client.go", "if best == nil || ttlv.CompareVersions(v, *best) > 0 {", "if best == nil {"},
+}
